@@ -179,6 +179,26 @@ func (o *functionOperator) Next(ctx context.Context) ([]model.StepVector, error)
 		if o.funcExpr.Func.Name == "scalar" {
 			return o.nextScalarNaNs(), nil
 		}
+		// The scalar arguments are evaluated for every step, as in the
+		// reference engine, so that an error in them is not lost.
+		for i := range o.nextOps {
+			if i == o.vectorIndex {
+				continue
+			}
+			for {
+				scalarVectors, err := o.nextOps[i].Next(ctx)
+				if err != nil {
+					return nil, err
+				}
+				if scalarVectors == nil {
+					break
+				}
+				for _, vector := range scalarVectors {
+					o.nextOps[i].GetPool().PutStepVector(vector)
+				}
+				o.nextOps[i].GetPool().PutVectors(scalarVectors)
+			}
+		}
 		return nil, nil
 	}
 	batchStart := o.currentStep
